@@ -159,7 +159,23 @@ def _go_series_concat_items(A):
     return sf.Series.from_concat_items((('x', s1), ('y', s2))), (lambda: go_ix.append('NEW') if hasattr(go_ix, 'append') else None), ('x', 'NEW'), (lambda c: c.index)
 
 
-GO_SEEDS = {'IndexHierarchy.from_index_items(IndexGO)': _go_index_items, 'Frame.from_concat_items(FrameGO)': _go_concat_items,
+def _go_product(A):
+    # a static hierarchy built as a product with a grow-only inner level; that level then grows
+    inner = sf.IndexGO((1, 2))
+    ih = sf.IndexHierarchy.from_product(('a', 'b'), inner)
+    ih.values
+    return ih, (lambda: inner.append(9)), ('a', 9), (lambda c: c)
+
+
+def _go_levels_ctor(A):
+    # static hierarchy from another static hierarchy that was itself built from a grow-only one (two derivation steps)
+    go = sf.IndexHierarchyGO.from_labels([('a', 1), ('a', 2), ('b', 1)])
+    mid = sf.IndexHierarchy(go)
+    return sf.Series(A['i8'], index=mid, name='s'), (lambda: go.append(('b', 2))), ('b', 2), (lambda c: c.index)
+
+
+GO_SEEDS = {'IndexHierarchy.from_product(IndexGO)': _go_product, 'Series(index=IndexHierarchy(IndexHierarchyGO))': _go_levels_ctor,
+            'IndexHierarchy.from_index_items(IndexGO)': _go_index_items, 'Frame.from_concat_items(FrameGO)': _go_concat_items,
             'Series.from_concat_items(index=IndexGO)': _go_series_concat_items, 'Index(IndexGO)': _go_index, 'FrameGO.to_frame()': _go_frame_to_frame, 'Frame(FrameGO)': _go_frame_ctor, 'Series(index=FrameGO.columns)': _go_columns_as_index,
             'IndexHierarchy(IndexHierarchyGO)': _go_hier, 'FrameGO.rename().to_frame()': _go_frame_rename}
 
